@@ -398,7 +398,7 @@ func newScope() *slip.Scope {
 // afterCase undoes the global effects a call may have had by design and waits
 // for goroutines the call started, so that a fault in one of them is
 // attributed to this case.
-func afterCase(x *fw.Ctx, c *Case) {
+func waitGoroutines() {
 	for k := 0; baseGo < runtime.NumGoroutine() && k < 200; k++ {
 		if k < 20 {
 			runtime.Gosched()
@@ -406,6 +406,10 @@ func afterCase(x *fw.Ctx, c *Case) {
 			time.Sleep(time.Millisecond)
 		}
 	}
+}
+
+func afterCase(x *fw.Ctx, c *Case) {
+	waitGoroutines()
 	if baseGo < runtime.NumGoroutine() {
 		x.Cover("goroutines-left-running")
 		baseGo = runtime.NumGoroutine()
@@ -718,6 +722,7 @@ func execFn(x *fw.Ctx, c *Case) {
 	if c.Twice {
 		x.Cover("mode:twice")
 		if o1 := classify(err); o1.kind == "value" || o1.kind == "condition" {
+			waitGoroutines() // a thread the first evaluation started dies under the first context
 			markContext(ctx + " again")
 			steps, budgetAt = 0, stepBudget
 			err = sl.Catch(func() { res = scope.Eval(form, 0) })
